@@ -161,6 +161,24 @@ impl Scn {
                 }
             }
         }
+        // an address is only ever reported found while a record for it is alive (also in the replay
+        // of what was cached before the search began); the very millisecond of the expiry is left open
+        for (t, e) in &evs {
+            if let HEv::Found(nm, v) = e {
+                let alive: BTreeSet<(String, IpAddr, u32)> = live(&run.store, *t).union(&live(&run.store, t.saturating_sub(1))).cloned().collect();
+                for a in v {
+                    for (_, idx) in &a.intfs {
+                        run.counters.push(("found_addresses_checked_alive", 1));
+                        if !alive.contains(&(nm.clone(), a.ip, *idx)) {
+                            let sig = "C17|address-reported-found-although-no-record-for-it-is-alive";
+                            if !run.viols.iter().any(|x| x.sig == sig) {
+                                run.viols.push(viol(sig, format!("at +{} the search begun at +{} reports {} {:?} on interface {idx}; delivered {:?}", t - T0, s.start - T0, nm, a.ip, run.store.iter().map(|a| (a.t - T0, &a.owner, a.ip, a.ttl, a.flush, a.ifi)).collect::<Vec<_>>())));
+                            }
+                        }
+                    }
+                }
+            }
+        }
         let want = live(&run.store, run.w.now);
         run.counters.push(("views_compared", 1));
         if !want.is_empty() {
